@@ -11,6 +11,8 @@ import (
 	"os"
 	"strings"
 
+	"github.com/DistCompiler/pgo/distsys/tla"
+
 	"verifharness/internal/mpexec"
 	"verifharness/internal/tlaval"
 	"verifharness/internal/sysdefs"
@@ -25,6 +27,7 @@ type line struct {
 	State   string          `json:"state,omitempty"`
 	Choices []mpexec.Choice `json:"choices,omitempty"`
 	Msg     string          `json:"msg,omitempty"`
+	Obs     interface{}     `json:"obs,omitempty"`
 	Policy  string          `json:"policy,omitempty"`
 	Seed    int64           `json:"seed,omitempty"`
 }
@@ -101,7 +104,11 @@ func runOne(run int, sysName string, n int, seed int64, maxSteps int, policy str
 			break
 		}
 		if res.Committed {
-			emit(line{E: "step", Proc: p.Self.String(), Label: res.Label, State: s.DumpState(nil), Choices: res.Choices})
+			var obs interface{}
+			if s.Observe != nil {
+				obs = s.Observe(p, res.Label, p.PC, p.Local)
+			}
+			emit(line{E: "step", Proc: p.Self.String(), Label: res.Label, State: s.DumpState(nil), Choices: res.Choices, Obs: obs})
 			failedSince = map[*mpexec.Proc]bool{}
 		} else {
 			emit(line{E: "abort", Proc: p.Self.String(), Label: res.Label, Choices: res.Choices})
@@ -293,7 +300,12 @@ func runGuided(sysName string, n int, traceFile string, args map[string]int) {
 					dd := s.Dump(sc.Next)
 					if tlaval.MustCanon(dd) == want {
 						cur, curCanon, found = sc.Next, want, true
-						emit(line{E: "step", Proc: s.Procs[pi].Self.String(), Label: sc.Label, State: dd, Choices: sc.Choices})
+						var obs interface{}
+						if s.Observe != nil {
+							nx := sc.Next.P[pi]
+							obs = s.Observe(s.Procs[pi], sc.Label, nx.PC, func(r string) tla.Value { return nx.Locals[r] })
+						}
+						emit(line{E: "step", Proc: s.Procs[pi].Self.String(), Label: sc.Label, State: dd, Choices: sc.Choices, Obs: obs})
 						break
 					}
 				}
